@@ -193,3 +193,37 @@ def rekeyed_public_key(c, group, layout):
     out = c.call(dpapi_ng.ncrypt_unprotect_secret, bad, cache=victim)
     c.check(seq_eq(out, pt), "an altered blob decrypted to different plaintext")
     return True
+
+
+OTHER_CONTENT_OIDS = ["2.16.840.1.101.3.4.1.42", "2.16.840.1.101.3.4.1.2", "2.16.840.1.101.3.4.1.22", "2.16.840.1.101.3.4.1.6", "2.16.840.1.101.3.4.1.26",
+                      "2.16.840.1.101.3.4.1.41", "2.16.840.1.101.3.4.1.44", "1.2.840.113549.3.7", "2.16.840.1.101.3.4.1.45", "2.16.840.1.101.3.4.1.46"]
+
+
+@harness(P, per_job=True, params=lambda tier: [dict(oid=o, par=p_, cut=k, layout=l) for i, o in enumerate(OTHER_CONTENT_OIDS) for p_, k, l in
+                                               ([[("iv16", 16, "envelope")], [("gcm", 16, "trailing")], [("iv16", 21, "envelope")]][i % 3] if tier == "quick" else
+                                                [(a, b, ll) for a in ("iv16", "gcm", "iv12") for b in (16, 21, 0) for ll in ("envelope", "trailing")])],
+         raises=(Exception,), max_steps=3000000,
+         bounds="algorithm downgrade: of a valid blob the content-encryption OID is replaced by one of 10 listed OIDs (AES-CBC 128/192/256, AES-GCM 128/192, AES-ECB, AES-CCM, 3DES-CBC, "
+         "AES key wrap, and AES256-GCM itself), the parameters by an OCTET STRING of 16 / 12 symbolic octets or left as the GCM parameters, and the content cut to its first 16 "
+         "octets, left whole, or emptied; the wrapped CEK and key identifier stay genuine. Any cipher mode other than GCM decrypts without authentication in the stub world "
+         "(output = fresh octets, PKCS#7 unpadding succeeds when they happen to be validly padded). Decryption must fail or return the original plaintext",
+         outside="OIDs not listed; downgrades of the key-wrap algorithm", must_reach=("downgraded blob built",))
+def downgrade(c, oid, par, cut, layout):
+    import dpapi_ng
+    from dpapi_ng import _blob
+
+    from . import e2e, refs
+
+    w, pt, root, blob = blobmut.make_blob(c, layout="envelope")
+    y = c.call(_blob.DPAPINGBlob.unpack, blob)
+    params = {"iv16": lambda: refs.der_octets(c.bytes("forged_iv", 16)), "iv12": lambda: refs.der_octets(c.bytes("forged_iv", 12)), "gcm": lambda: y.enc_content_parameters}[par]()
+    content = refs.cat(y.enc_content)
+    content = content[:cut] if cut else (content if cut is None else b"")
+    if cut == 21:
+        content = refs.cat(y.enc_content)
+    forged = _blob.DPAPINGBlob(y.key_identifier, y.protection_descriptor, y.enc_cek, y.enc_cek_algorithm, None, content, oid, params)
+    bad = c.call(forged.pack, blob_in_envelope=(layout == "envelope"))
+    c.reach("downgraded blob built")
+    out = c.call(dpapi_ng.ncrypt_unprotect_secret, bad, cache=e2e.loaded_cache(c, root, "SHA512"))
+    c.check(seq_eq(out, pt), "an altered blob decrypted to different plaintext")
+    return True
